@@ -165,6 +165,10 @@ class TplExec(mirpool.PoolExec):
             return [(S, V("bool", v=z3.Or(terms) if is_any else z3.And(terms)))]
         if re.search(r" as Clone>::clone$", c):
             return [(S, dv(args[0]))]
+        if not getattr(self, "havoc", False):
+            fn = self.same_crate_fn(c, len(args))
+            if fn is not None:      # a helper of the analysed crate: follow the logic into it
+                return self.inline_call(S, fn, args)
         self.unknown_calls.add(re.sub(r"<.*>", "<..>", c)[:80])
         return [(S, OPQ("call " + c[:40]))]
 
